@@ -1,0 +1,90 @@
+//go:build verif
+
+// Contracts for deductive verification of the s-expression reader (see
+// /verif/DESIGN.md).  Comment-only; compiled only with the build tag `verif`.
+// The bufio.Reader is modelled by ghost fields: rdlen (total input length),
+// rdpos (bytes consumed), rdlast (an UnreadByte would succeed); see
+// /verif/specs/external.spec.
+
+package sexp
+
+//@ define rdOK(r) = r != nil && 0 <= rdpos(r) && rdpos(r) <= rdlen(r)
+//@ define isWS(b) = b == 32 || b == 9 || b == 10 || b == 13
+//@ define atByte(r, c) = rdpos(r) < rdlen(r) && rdat(r, rdpos(r)) == c
+//@ define rdAdvanced(r) = rdpos(r) >= old(rdpos(r)) && rdpos(r) <= rdlen(r)
+
+//@ func sexp.peek
+//@   requires rdOK(r)
+//@   modifies rdpos(r), rdlast(r)
+//@   ensures [C13.sexp.peek.pos] rdpos(r) == old(rdpos(r))
+//@   ensures [C13.sexp.peek.eof] (e == ioEOF()) <==> (old(rdpos(r)) >= rdlen(r))
+//@   ensures e == nil || e == ioEOF()
+//@   ensures [C13.sexp.peek.byte] e == nil ==> c == rdat(r, rdpos(r))
+
+//@ func sexp.ReadWhitespace
+//@   requires rdOK(r)
+//@   modifies rdpos(r), rdlast(r)
+//@   ensures [C13.sexp.ws.pos] rdAdvanced(r)
+//@   ensures [C13.sexp.ws.stop] rdpos(r) >= rdlen(r) || !isWS(rdat(r, rdpos(r)))
+//@   ensures [C13.sexp.ws.noop] (old(rdpos(r)) < rdlen(r) && !isWS(rdat(r, old(rdpos(r))))) ==> rdpos(r) == old(rdpos(r))
+//@ loop sexp.ReadWhitespace #0
+//@   invariant rdOK(r) && rdpos(r) >= old(rdpos(r)) && ((e == ioEOF()) <==> (rdpos(r) >= rdlen(r))) && (e == nil ==> c == rdat(r, rdpos(r)))
+//@   invariant (old(rdpos(r)) < rdlen(r) && !isWS(rdat(r, old(rdpos(r))))) ==> rdpos(r) == old(rdpos(r))
+//@   decreases rdlen(r) - rdpos(r)
+
+//@ func sexp.expect
+//@   requires rdOK(r)
+//@   modifies rdpos(r), rdlast(r)
+//@   ensures [C13.sexp.expect.pos] rdAdvanced(r)
+//@   ensures [C13.sexp.expect.progress] result ==> rdpos(r) > old(rdpos(r))
+//@   ensures [C13.sexp.expect.hit] (old(rdpos(r)) < rdlen(r) && rdat(r, old(rdpos(r))) == c && !isWS(c)) ==> result
+
+//@ loop sexp.ReadDataUntil #0
+//@   invariant rdOK(r) && rdpos(r) >= old(rdpos(r)) && nonglobal(result) && ((err == ioEOF()) <==> (rdpos(r) >= rdlen(r))) && (err == nil ==> c == rdat(r, rdpos(r))) && (err == nil || err == ioEOF())
+//@   decreases rdlen(r) - rdpos(r)
+
+//@ func sexp.ReadListStart
+//@   requires rdOK(r)
+//@   modifies rdpos(r), rdlast(r)
+//@   ensures rdAdvanced(r) && (result ==> rdpos(r) > old(rdpos(r)))
+//@   ensures (old(rdpos(r)) < rdlen(r) && rdat(r, old(rdpos(r))) == 40) ==> result
+//@ func sexp.ReadListEnd
+//@   requires rdOK(r)
+//@   modifies rdpos(r), rdlast(r)
+//@   ensures rdAdvanced(r) && (result ==> rdpos(r) > old(rdpos(r)))
+
+//@ func sexp.ReadString
+//@   requires rdOK(r)
+//@   modifies rdpos(r), rdlast(r)
+//@   ensures [C13.sexp.string.pos] rdAdvanced(r)
+//@   ensures [C13.sexp.string.progress] (old(rdpos(r)) < rdlen(r) && rdat(r, old(rdpos(r))) == 34) ==> rdpos(r) > old(rdpos(r))
+//@ func sexp.ReadBigNum
+//@   requires rdOK(r)
+//@   modifies rdpos(r), rdlast(r)
+//@   ensures [C13.sexp.bignum.pos] rdAdvanced(r)
+//@   ensures [C13.sexp.bignum.progress] (old(rdpos(r)) < rdlen(r) && rdat(r, old(rdpos(r))) == 35) ==> rdpos(r) > old(rdpos(r))
+//@ func sexp.ReadSymbol
+//@   requires rdOK(r)
+//@   modifies rdpos(r), rdlast(r)
+//@   ensures [C13.sexp.symbol.pos] rdAdvanced(r)
+//@   ensures [C13.sexp.symbol.progress] (old(rdpos(r)) < rdlen(r) && !isWS(rdat(r, old(rdpos(r)))) && rdat(r, old(rdpos(r))) != 40 && rdat(r, old(rdpos(r))) != 41) ==> rdpos(r) > old(rdpos(r))
+
+//@ func sexp.ReadValue
+//@   requires rdOK(r)
+//@   modifies rdpos(r), rdlast(r)
+//@   ensures [C13.sexp.value.pos] rdAdvanced(r)
+//@   ensures [C13.sexp.value.progress] !result1 ==> rdpos(r) > old(rdpos(r))
+//@   decreases 2 * (rdlen(r) - rdpos(r)) + 1
+
+//@ func sexp.ReadList
+//@   requires rdOK(r)
+//@   modifies rdpos(r), rdlast(r)
+//@   ensures [C13.sexp.list.pos] rdAdvanced(r)
+//@   ensures [C13.sexp.list.progress] (old(rdpos(r)) < rdlen(r) && rdat(r, old(rdpos(r))) == 40) ==> rdpos(r) > old(rdpos(r))
+//@   decreases 2 * (rdlen(r) - rdpos(r))
+
+//@ func sexp.ReadListItem
+//@   requires rdOK(r)
+//@   modifies rdpos(r), rdlast(r)
+//@   ensures [C13.sexp.item.pos] rdAdvanced(r)
+//@   decreases 2 * (rdlen(r) - rdpos(r)) + 2
